@@ -227,19 +227,146 @@ theorem handle_errors_site_behaves_as_written (blocks : List Block) (s : Nat) (r
 example : (serveAdapted (adapt [⟨[str "5xx"], [⟨none, 211⟩]⟩, ⟨[str "404", str "4xx"], [⟨some 1, 201⟩, ⟨none, 202⟩]⟩]) 404
     ⟨0, 0, 3, 0, [], none, none, 3, []⟩).map (·.status) = some (some 202) := by decide
 
+
 mutual
-def groupsOfRoutesForExample : List Route → List Nat
+def allGroups : List Route → List Nat
   | [] => []
-  | rt :: rs => groupsOfRouteForExample rt ++ groupsOfRoutesForExample rs
-def groupsOfRouteForExample : Route → List Nat
-  | .mk g _ hs _ => g :: groupsOfHandlersForExample hs
-def groupsOfHandlersForExample : List Handler → List Nat
+  | rt :: rs => allGroupsRoute rt ++ allGroups rs
+def allGroupsRoute : Route → List Nat
+  | .mk g _ hs _ => g :: allGroupsHandlers hs
+def allGroupsHandlers : List Handler → List Nat
   | [] => []
-  | h :: hs => groupsOfHandlerForExample h ++ groupsOfHandlersForExample hs
-def groupsOfHandlerForExample : Handler → List Nat
-  | .sub rs _ _ => groupsOfRoutesForExample rs
+  | h :: hs => allGroupsHandler h ++ allGroupsHandlers hs
+def allGroupsHandler : Handler → List Nat
+  | .sub rs _ _ => allGroups rs
   | _ => []
 end
+
+/-! ### the group names of nested `handle` blocks never collide
+
+The route-group set is ONE set per request, shared by every nesting level (Model.lean), so the
+mutual exclusion of the `handle` blocks of one body is only sound if no group name is used both by
+a body and by anything nested in it.  The adapter's counter guarantees that: -/
+
+theorem allGroupsHandlers_append : ∀ (a b : List Handler),
+    allGroupsHandlers (a ++ b) = allGroupsHandlers a ++ allGroupsHandlers b
+  | [], b => by simp [allGroupsHandlers]
+  | h :: hs, b => by simp [allGroupsHandlers, allGroupsHandlers_append hs b]
+
+theorem mem_allGroups_consolidateStep (rt : Route) (acc : List Route) (g : Nat)
+    (h : g ∈ allGroups (consolidateStep rt acc)) : g ∈ allGroups (rt :: acc) := by
+  unfold consolidateStep at h
+  split at h
+  · rename_i hs hs' rest
+    simp only [allGroups, allGroupsRoute, allGroupsHandlers_append, List.cons_append, List.mem_cons,
+      List.mem_append] at h ⊢
+    rcases h with h | (h | h) | h <;> simp [h]
+  · exact h
+
+theorem mem_allGroups_consolidate : ∀ (rs : List Route) (g : Nat), g ∈ allGroups (consolidate rs) → g ∈ allGroups rs
+  | [], g, h => by simpa [consolidate] using h
+  | rt :: rs, g, h => by
+    have h1 : g ∈ allGroups (rt :: consolidate rs) := by
+      apply mem_allGroups_consolidateStep
+      simpa [consolidate] using h
+    simp only [allGroups, List.mem_append] at h1 ⊢
+    rcases h1 with h1 | h1
+    · exact Or.inl h1
+    · exact Or.inr (mem_allGroups_consolidate rs g h1)
+
+theorem mem_allGroups_withGroup (g0 : Nat) (rt : Route) (g : Nat) (h : g ∈ allGroupsRoute (rt.withGroup g0)) :
+    g = g0 ∨ g ∈ allGroupsRoute rt := by
+  cases rt with
+  | mk g1 sets hs term =>
+    simp only [Route.withGroup, allGroupsRoute, List.mem_cons] at h ⊢
+    rcases h with h | h
+    · exact Or.inl h
+    · exact Or.inr (Or.inr h)
+
+theorem mem_allGroups_setGroups (g0 : Nat) : ∀ (ns : List Node) (rs : List Route) (g : Nat),
+    g ∈ allGroups (setGroups g0 ns rs) → g = g0 ∨ g ∈ allGroups rs
+  | [], _, g, h => by simp [setGroups, allGroups] at h
+  | _ :: _, [], g, h => by simp [setGroups, allGroups] at h
+  | n :: ns, rt :: rts, g, h => by
+    simp only [setGroups, allGroups, List.mem_append] at h ⊢
+    rcases h with h | h
+    · split at h
+      · rcases mem_allGroups_withGroup g0 rt g h with h | h
+        · exact Or.inl h
+        · exact Or.inr (Or.inl h)
+      · exact Or.inr (Or.inl h)
+    · rcases mem_allGroups_setGroups g0 ns rts g h with h | h
+      · exact Or.inl h
+      · exact Or.inr (Or.inr h)
+
+theorem drawGroups_bounds (n c : Nat) :
+    c < (drawGroups n c).2 ∧ ((drawGroups n c).1 = 0 ∨ (c < (drawGroups n c).1 ∧ (drawGroups n c).1 ≤ (drawGroups n c).2)) := by
+  unfold drawGroups; split <;> simp <;> omega
+
+/-- every group name drawn while a list of directives is adapted with the counter at `c` lies in
+    `(c, c']`, where `c'` is the counter afterwards -/
+def FreshIn (rs : List Route) (c c' : Nat) : Prop := c ≤ c' ∧ ∀ g ∈ allGroups rs, g ≠ 0 → c < g ∧ g ≤ c'
+
+mutual
+theorem adaptNode_fresh : ∀ (n : Node) (c : Nat), FreshIn [(adaptNode n c).1] c (adaptNode n c).2
+  | .respond st, c => by
+    simp [adaptNode, FreshIn, allGroups, allGroupsRoute, allGroupsHandlers, allGroupsHandler]
+  | .handle p body, c => by
+    have ih := adaptNodes_fresh body c
+    simp only [adaptNode]
+    generalize hb : adaptNodes body c = res at ih
+    obtain ⟨rs, c1⟩ := res
+    simp only at ih ⊢
+    have hd := drawGroups_bounds (body.filter Node.isHandle).length c1
+    refine ⟨by have := ih.1; omega, ?_⟩
+    intro g hg hne
+    simp only [allGroups, allGroupsRoute, allGroupsHandlers, allGroupsHandler, List.append_nil, List.mem_cons] at hg
+    rcases hg with hg | hg
+    · exact absurd hg hne
+    · have h1 := mem_allGroups_consolidate _ g hg
+      rcases mem_allGroups_setGroups _ body rs g h1 with h2 | h2
+      · rcases hd.2 with h0 | h3
+        · rw [h2] at hne; exact absurd h0 hne
+        · have := ih.1; rw [h2]; omega
+      · have := ih.2 g h2 hne
+        omega
+theorem adaptNodes_fresh : ∀ (ns : List Node) (c : Nat), FreshIn (adaptNodes ns c).1 c (adaptNodes ns c).2
+  | [], c => by simp [adaptNodes, FreshIn, allGroups]
+  | n :: ns, c => by
+    have h1 := adaptNode_fresh n c
+    simp only [adaptNodes]
+    generalize hn : adaptNode n c = r1 at h1
+    obtain ⟨rt, c1⟩ := r1
+    have h2 := adaptNodes_fresh ns c1
+    generalize hns : adaptNodes ns c1 = r2 at h2
+    obtain ⟨rts, c2⟩ := r2
+    simp only at h1 h2 ⊢
+    refine ⟨by have := h1.1; have := h2.1; omega, ?_⟩
+    intro g hg hne
+    simp only [allGroups, List.mem_append] at hg
+    rcases hg with hg | hg
+    · have := h1.2 g (by simpa [allGroups] using hg) hne
+      have := h2.1
+      omega
+    · have := h2.2 g hg hne
+      have := h1.1
+      omega
+end
+
+/-- **the group a body's `handle` blocks share is new**: it is different from every group name
+    used anywhere inside those blocks (and inside anything adapted before).  Together with
+    `first_of_group_only` / `applicable_grouped_route_marks_group` this is what makes "only the
+    first matching handle of a body is evaluated" hold level by level although the group set is
+    global to the request. -/
+theorem handle_body_group_is_new (body : List Node) (c : Nat) (g : Nat)
+    (hg : g ∈ allGroups (adaptNodes body c).1) (hne : g ≠ 0) :
+    g ≠ (drawGroups (body.filter Node.isHandle).length (adaptNodes body c).2).1 ∨
+      (drawGroups (body.filter Node.isHandle).length (adaptNodes body c).2).1 = 0 := by
+  have h := (adaptNodes_fresh body c).2 g hg hne
+  have hd := drawGroups_bounds (body.filter Node.isHandle).length (adaptNodes body c).2
+  rcases hd.2 with h0 | h1
+  · exact Or.inr h0
+  · left; omega
 
 /-! ### `handle` blocks: kernel-checked instances (the general statement is checked by the oracle) -/
 
@@ -252,7 +379,7 @@ def wHandleSite : List Node :=
     .respond 206 ]
 
 -- the group names the adapter draws (group2 inside, group7 outside; a lone handle gets none)
-example : groupsOfRoutesForExample (adaptSite wHandleSite) = [8, 3, 0, 3, 0, 0, 8, 0, 8, 0, 0, 0] := by decide
+example : allGroups (adaptSite wHandleSite) = [8, 3, 0, 3, 0, 0, 8, 0, 8, 0, 0, 0] := by decide
 -- only the first matching handle of a body is evaluated, at every level; what no block answers
 -- reaches the `respond` behind the blocks
 example : (serve (adaptSite wHandleSite) false [] ⟨0, 0, 2, 0, [], none, none, 2, []⟩).status = some 201 := by decide
